@@ -9,7 +9,7 @@ from .lib.mir import AnchorLost
 CONFIGS_QUICK = ["A"]
 CONFIGS_THOROUGH = ["A", "R", "NOAPI"]
 TECHNIQUE = "condition-under-which rules (dominating branch facts) for every header mutation in CORSProc::bite's coroutine, decision tables of the builder and of the default OPTIONS handler"
-LEVEL_TEXT = ('Decides clauses C14-a..d: CORSProc::bite sets Access-Control-Allow-Origin to the configured origin unconditionally on every path from the inner proc '
+LEVEL_TEXT = ('Decides clauses C14-a..e: CORSProc::bite sets Access-Control-Allow-Origin to the configured origin unconditionally on every path from the inner proc '
               'to the return (so also on errors and 404), Allow-Credentials `true` exactly under the credentials flag, Expose-Headers exactly when configured, Vary: '
               'Origin exactly for the wildcard, the preflight-only headers (Max-Age, Allow-Methods, Allow-Headers with the echo of Access-Control-Request-Headers as '
               'fallback) only for OPTIONS requests, and rewrites 501 to 200 without Content-Type/Length only for OPTIONS with status Not Implemented; '
@@ -20,7 +20,9 @@ LEVEL_TEXT = ('Decides clauses C14-a..d: CORSProc::bite sets Access-Control-Allo
               'Every value-taking builder method of CORS stores `Some(<its parameter>)` unconditionally (no setting can be lost in a conversion). C14-d: the router '
               "attaches an application's fangs (hence its CORS fang) to every node of its subtree, handler-less nodes included, and mounting hands the mounted "
               "application's fangs over on every success path -- the nodes that answer 404s and unserved methods under a mount are where a missing policy is "
-              'observable. Decides these clauses, not the advertised set under nested/merged applications.')
+              'observable; C14-e: in Node::merge_here the handler of the node at the mount point is assigned only on the edge where the mounted root has a handler '
+              "(mounting never erases the automatic preflight handler of the parent's own route). Decides these clauses, not the advertised set under nested/merged "
+              'applications.')
 
 
 def run(ck, progs):
@@ -32,6 +34,7 @@ def run(ck, progs):
         ck.guard("C14-b DECISION options", lambda: c14b(ck, prog))
         ck.guard("C14-c PAIR builder keeps the policy", lambda: c14c(ck, prog))
         ck.guard("C14-d SCOPE policy on every response", lambda: c14d(ck, prog))
+        ck.guard("C14-e GUARD mount keeps the preflight handler", lambda: c14e(ck, prog))
     ck.config = None
 
 
@@ -325,3 +328,8 @@ def c14d(ck, prog):
         ck.ob(R, o["key"], o["ok"], o["where"], o["detail"] if o["ok"] else o["detail"] + " -- responses produced by those nodes (404 under a mount, methods the mounted application does not serve) "
               "would lack Access-Control-Allow-Origin", how=o["how"], nontrivial=o.get("nontrivial", True))
     ck.floor(R, "attachment clauses", n, 4)
+
+
+def c14e(ck, prog):
+    from . import C01
+    C01.mount_keeps_handlers(ck, prog, "C14-e GUARD mount keeps the preflight handler")
